@@ -71,6 +71,25 @@ func C06prg(p *load.Program, run *report.Run) {
 			run.Undecided("prg-lockstep", key, p.Rel(fd.Pos()), "no chunk loop (a for statement around SendData/ReceiveData)")
 			continue
 		}
+		// collect, then process: the receiving loop appends every chunk to a list (one append per iteration, at
+		// the top level of its body) and a later `for _, c := range list` does the work — that loop sees
+		// exactly the chunks of the batch and is the chunk loop for what follows
+		if !containsCall(chunkLoop.Body, "prg") {
+			lists := map[string]bool{}
+			for _, st := range effectiveQ(info, chunkLoop.Body.List) {
+				if as, ok := st.(*ast.AssignStmt); ok && len(as.Lhs) == 1 && len(as.Rhs) == 1 {
+					if c, ok := as.Rhs[0].(*ast.CallExpr); ok && types.ExprString(c.Fun) == "append" && len(c.Args) == 2 && types.ExprString(c.Args[0]) == types.ExprString(as.Lhs[0]) {
+						lists[types.ExprString(as.Lhs[0])] = true
+					}
+				}
+			}
+			for _, st := range fd.Body.List {
+				if rs, ok := st.(*ast.RangeStmt); ok && rs.Pos() > chunkLoop.End() && lists[types.ExprString(rs.X)] && containsCall(rs.Body, "prg") {
+					chunkLoop = &ast.ForStmt{For: rs.For, Body: rs.Body}
+					break
+				}
+			}
+		}
 		// the width variable of the chunk: the third argument of createLabels, else the variable defined from len(chunk)/K or (rows+7)/8
 		width := ""
 		ast.Inspect(chunkLoop.Body, func(n ast.Node) bool {
